@@ -67,9 +67,14 @@ def run(ctx):
     reads = [c for c in cases if c["op"] == "read"]
     try:
         ctx.run_cases("enumerated", reads, path, swcio.execute, "Judge_SwcIO", keyfn, nontrivial)
+        # the reader loop itself, line by line: the stream logs every hand-out, the end, and close(); Trace_SwcIO replays the state machine
+        ev = [c for c in reads if c["o"]["pad"] == 0 and not any(ln["k"] == "U" for ln in c["file"])]
+        ctx.run_cases("line-events", ev, path, swcio.exec_line_events, "Trace_SwcIO", lambda c, o, w: "loop:" + w, nontrivial)
         fc = free_cases(ctx, 300 if ctx.tier == "quick" else 5000)
         p = ctx.write_cases("free", fc)
         ctx.run_cases("free", fc, p, swcio.execute, "Judge_SwcIO", keyfn, nontrivial)
+        ev2 = [c for c in fc if not any(ln["k"] == "U" for ln in c["file"])]
+        ctx.run_cases("line-events-free", ev2, p, swcio.exec_line_events, "Trace_SwcIO", lambda c, o, w: "loop:" + w, nontrivial)
     finally:
         swcio.cleanup()
     ctx.assumptions += ["a trailing carriage return left in a comment by a text stream that was opened without newline translation is ignored",
